@@ -6,7 +6,7 @@ import torch
 from . import models, wq
 
 EVIDENCE = dict(
-    bounds="no-write monitor (all values, all executed paths): every in-place ATen op is checked against the protected storages (parameters, buffers/scales, caller-owned inputs) during model(x) outside calibration (unfrozen, frozen, calibrated), quantize(), freeze(), state_dict(), quantize_weight() over 5 shapes x axis x every divisor group size x six qtypes, quantize_activation(); determinism by term identity of two successive evaluations with symbolic parameters and inputs; scoping under faults: exception raised in the forward of the k-th module for every k (solver-enumerated, models of <= 5 modules), exception kinds Exception and BaseException (KeyboardInterrupt), nesting depth <= 2 (distinct context objects and the same object re-entered), sequential contexts (distinct objects and one object reused), normal exit; ownership: nine in-place operations applied by the caller to the tensors returned by model(x) and by quantize_activation must reach neither buffers, nor the caller's inputs, nor the next evaluation",
+    bounds="no-write monitor (all values, all executed paths): every in-place ATen op is checked against the protected storages (parameters, buffers/scales, caller-owned inputs) during model(x) outside calibration (unfrozen, frozen, calibrated), quantize(), freeze(), state_dict(), quantize_weight() over 5 shapes x axis x every divisor group size x six qtypes, quantize_activation(); determinism by term identity of two successive evaluations with symbolic parameters and inputs; scoping under faults: exception raised in the forward of the k-th module for every k (solver-enumerated, models of <= 5 modules), exception kinds Exception and BaseException (KeyboardInterrupt), nesting depth <= 2 (distinct context objects and the same object re-entered), sequential contexts (distinct objects and one object reused), normal exit; after the block both a fresh model and the interrupted model itself are evaluated twice outside calibration (buffers unchanged, results identical); ownership: nine in-place operations applied by the caller to the tensors returned by model(x) and by quantize_activation must reach neither buffers, nor the caller's inputs, nor the next evaluation",
     outside="multi-threaded use; asynchronous exceptions; the fault clause's state is concrete (hook tables, mode stack): it is bounded enumeration steered by the solver, not a symbolic claim",
     assumptions=["a write that does not go through an ATen in-place/out op (e.g. raw data_ptr access in a compiled extension) is not observed", "Python-level state (qtypes, extension switch, registries) is snapshotted and compared concretely"],
 )
@@ -122,6 +122,21 @@ def fault_scenario(model_kind, k, exc_kind, nesting, act="qint8"):
     after = global_state()
     if after != snap:
         probs.append(f"global state not restored after the calibration block: {snap} -> {after}")
+    # the SAME model (the one whose forward was interrupted) evaluated afterwards, outside any calibration: its buffers stay as
+    # the block left them and two evaluations agree bit for bit
+    try:
+        before_same = {n: b.clone() for n, b in model.named_buffers()}
+        with torch.no_grad():
+            y1 = model(x * 3)
+            y2 = model(x * 3)
+        y1, y2 = (y.dequantize() if hasattr(y, "dequantize") else y for y in (y1, y2))
+        for n, b in model.named_buffers():
+            if not torch.equal(b, before_same[n]):
+                probs.append(f"the interrupted model run after the block had its buffer {n} changed: {before_same[n].tolist()} -> {b.tolist()}")
+        if not torch.equal(torch.nan_to_num(y1), torch.nan_to_num(y2)):
+            probs.append("the interrupted model gives two different results for the same input after the block")
+    except Exception as e:  # noqa
+        probs.append(f"the interrupted model cannot be evaluated after the block: {type(e).__name__}: {e}")
     # a fresh model run afterwards must leave its scales untouched
     fresh, x2 = models.make(model_kind, torch.float32, seed=8)
     quantize(fresh, weights=wq.qt("qint8"), activations=wq.qt(act))
